@@ -1,5 +1,316 @@
 import Anything.Model.Cli
 import Anything.Spec.Words
+import Anything.Lemmas.UnitWord
+import Anything.Lemmas.Scale
+/-!
+# C05 — every unit word denotes the standard definition of a unit and prefix
+-/
+
 namespace Anything.Props.C05
-theorem C05_placeholder : True := trivial
+open Anything Anything.Spec Anything.Spec.SI Anything.Spec.UnitRef
+
+/-! ## The prefix literals -/
+
+/-- Both lexer tables, in the order the runtime `refcheck` command walks them. -/
+abbrev allRows : List (List Char × WordAction) := Generated.unitsOnly ++ Generated.combined
+
+/-- `"YOCTO"` ↦ `"yocto"`. -/
+def lower (s : String) : List Char := s.toList.map Char.toLower
+
+/-- **C05 (prefix table).** The prefix literals of the generated lexer tables carry
+exactly the SI prefixes' powers of ten:
+1. every prefix literal is the symbol or the name of an SI prefix of the reference
+   (brochure table 7) and carries that prefix's power of ten;
+2. conversely every SI prefix symbol and every SI prefix name is a prefix literal with
+   that power;
+3. the second lexer (`Units`) has no prefix literal at all;
+4. the `Prefix::*` constants are the twenty SI prefixes (by lower-cased name, with
+   their power) plus `NONE = 0`;
+5. the reference itself is unambiguous (symbols and names pairwise distinct), so that
+   `refPrefix` cannot be right for the wrong reason. -/
+theorem C05_prefix_table :
+    (∀ lit p alone, (lit, WordAction.pfx p alone) ∈ Generated.combined → refPrefix lit = some p) ∧
+    (∀ r ∈ prefixes,
+      (∃ alone, (r.1.toList, WordAction.pfx r.2.2 alone) ∈ Generated.combined) ∧
+      (∃ alone, (r.2.1.toList, WordAction.pfx r.2.2 alone) ∈ Generated.combined)) ∧
+    (∀ lit p alone, (lit, WordAction.pfx p alone) ∉ Generated.unitsOnly) ∧
+    ((∀ c ∈ Generated.prefixConsts, (c.1 = "NONE" ∧ c.2 = 0) ∨
+        ∃ r ∈ prefixes, r.2.1.toList = lower c.1 ∧ r.2.2 = c.2) ∧
+     (∀ r ∈ prefixes, ∃ c ∈ Generated.prefixConsts, r.2.1.toList = lower c.1 ∧ r.2.2 = c.2)) ∧
+    (prefixes.map (·.1) ++ prefixes.map (·.2.1)).Nodup := by
+  refine ⟨?_, ?_, ?_, ⟨?_, ?_⟩, ?_⟩
+  · have h : Generated.combined.all (fun r => match r.2 with
+        | .pfx p _ => refPrefix r.1 == some p
+        | _ => true) = true := by decide +kernel
+    intro lit p alone hm
+    have := List.all_eq_true.mp h _ hm
+    simpa using this
+  · have h : prefixes.all (fun r =>
+        Generated.combined.any (fun row => row.1 == r.1.toList && match row.2 with
+          | .pfx p _ => p == r.2.2
+          | _ => false) &&
+        Generated.combined.any (fun row => row.1 == r.2.1.toList && match row.2 with
+          | .pfx p _ => p == r.2.2
+          | _ => false)) = true := by decide +kernel
+    intro r hr
+    have := List.all_eq_true.mp h _ hr
+    simp only [Bool.and_eq_true, List.any_eq_true, beq_iff_eq] at this
+    obtain ⟨⟨⟨l1, a1⟩, hm1, he1, hp1⟩, ⟨⟨l2, a2⟩, hm2, he2, hp2⟩⟩ := this
+    simp only at he1 he2 hp1 hp2
+    subst he1 he2
+    constructor
+    · cases a1 with
+      | pfx p alone => simp only [beq_iff_eq] at hp1; subst hp1; exact ⟨alone, hm1⟩
+      | unit _ _ => simp at hp1
+      | sep => simp at hp1
+    · cases a2 with
+      | pfx p alone => simp only [beq_iff_eq] at hp2; subst hp2; exact ⟨alone, hm2⟩
+      | unit _ _ => simp at hp2
+      | sep => simp at hp2
+  · have h : Generated.unitsOnly.all (fun r => match r.2 with
+        | .pfx _ _ => false
+        | _ => true) = true := by decide +kernel
+    intro lit p alone hm
+    have := List.all_eq_true.mp h _ hm
+    simp at this
+  · have h : Generated.prefixConsts.all (fun c => (c.1 == "NONE" && c.2 == 0) ||
+        prefixes.any (fun r => r.2.1.toList == lower c.1 && r.2.2 == c.2)) = true := by
+      decide +kernel
+    intro c hc
+    have := List.all_eq_true.mp h _ hc
+    simp only [Bool.or_eq_true, Bool.and_eq_true, beq_iff_eq, List.any_eq_true] at this
+    rcases this with h1 | ⟨r, hr, h2⟩
+    · exact Or.inl h1
+    · exact Or.inr ⟨r, hr, h2⟩
+  · have h : prefixes.all (fun r =>
+        Generated.prefixConsts.any (fun c => r.2.1.toList == lower c.1 && r.2.2 == c.2)) = true := by
+      decide +kernel
+    intro r hr
+    have := List.all_eq_true.mp h _ hr
+    simp only [List.any_eq_true, Bool.and_eq_true, beq_iff_eq] at this
+    exact this
+  · decide +kernel
+
+/-- Non-vacuity: the tables do contain prefix literals, e.g. `k` and `kilo` for 10³. -/
+example : (['k'], WordAction.pfx 3 none) ∈ Generated.combined ∧
+    (['k', 'i', 'l', 'o'], WordAction.pfx 3 none) ∈ Generated.combined := by decide +kernel
+
+/-! ## The unit-name literals against the reference table
+
+`admissible` is the `"OK"` verdict of `Spec.UnitRef.checkName`, which the runtime
+`refcheck` command prints for every unit-name literal (`C05_refcheck_iff`);
+`Admissible` spells it out (`C05_admissible_iff`). -/
+
+def admissible (lit : List Char) (k : UnitKey) (bias : Int) : Bool :=
+  match findAffine lit with
+  | some (m, a) =>
+    (match scaleOf k with
+     | .affine m' a' => m == m' && a == a' && dimsOf k == [0, 0, 0, 0, 0, 1, 0, 0]
+     | .linear _ => false)
+  | none =>
+    match findRow lit with
+    | none => false
+    | some r =>
+      (match scaleOf k with
+       | .linear f => r.scales.contains (Arith.zpow 10 bias * f)
+       | .affine _ _ => false) && dimsOf k == r.dims
+
+def Admissible (lit : List Char) (k : UnitKey) (bias : Int) : Prop :=
+  (∃ m a, findAffine lit = some (m, a) ∧ scaleOf k = .affine m a ∧ dimsOf k = [0, 0, 0, 0, 0, 1, 0, 0]) ∨
+  (findAffine lit = none ∧ ∃ r, findRow lit = some r ∧ dimsOf k = r.dims ∧
+    ∃ f, scaleOf k = .linear f ∧ (10 : Rat) ^ bias * f ∈ r.scales)
+
+theorem C05_admissible_iff (lit : List Char) (k : UnitKey) (bias : Int) :
+    admissible lit k bias = true ↔ Admissible lit k bias := by
+  unfold admissible Admissible
+  cases hA : findAffine lit with
+  | some ma =>
+    obtain ⟨m, a⟩ := ma
+    cases hS : scaleOf k with
+    | linear f => simp
+    | affine m' a' =>
+      simp only [Bool.and_eq_true, beq_iff_eq, Option.some.injEq, Prod.mk.injEq, Scale.affine.injEq]
+      constructor
+      · rintro ⟨⟨rfl, rfl⟩, h⟩; exact Or.inl ⟨m, a, ⟨rfl, rfl⟩, ⟨rfl, rfl⟩, h⟩
+      · rintro (⟨m1, a1, ⟨rfl, rfl⟩, ⟨rfl, rfl⟩, h⟩ | ⟨h, _⟩)
+        · exact ⟨⟨rfl, rfl⟩, h⟩
+        · simp at h
+  | none =>
+    cases hR : findRow lit with
+    | none => simp
+    | some r =>
+      cases hS : scaleOf k with
+      | linear f =>
+        simp [arith_zpow_eq, and_comm]
+      | affine m' a' => simp
+
+theorem C05_refcheck_iff (lit : List Char) (k : UnitKey) (bias : Int) :
+    checkName lit k bias = "OK" ↔ admissible lit k bias = true := by
+  unfold checkName admissible
+  cases hA : findAffine lit with
+  | some ma =>
+    obtain ⟨m, a⟩ := ma
+    cases hS : scaleOf k with
+    | linear f => simp
+    | affine m' a' =>
+      simp only
+      split <;> simp_all
+  | none =>
+    cases hR : findRow lit with
+    | none => simp
+    | some r =>
+      cases hS : scaleOf k with
+      | linear f =>
+        simp only [isAffine, linFactor, hS, Bool.false_eq_true, ↓reduceIte]
+        split
+        · simp_all
+        · split <;> simp_all
+      | affine m' a' => simp [isAffine, hS]
+
+
+/-- The names excluded from `C05_table`, as character lists. -/
+def deviating : List (List Char) := knownDeviations.map String.toList
+
+/-- **C05 (unit table).** Every unit-name literal of either lexer table, except the
+known deviations, maps to a unit that has the dimensions of the reference row for
+that name and, with the literal's bias, one of the row's admissible exact scales
+(for the two offset temperature scales: the reference slope and zero point). -/
+theorem C05_table (lit : List Char) (k : UnitKey) (bias : Int)
+    (hm : (lit, WordAction.unit k bias) ∈ allRows) (hk : lit ∉ deviating) :
+    Admissible lit k bias := by
+  have h : allRows.all (fun r => match r.2 with
+      | .unit k b => deviating.contains r.1 || admissible r.1 k b
+      | _ => true) = true := by decide +kernel
+  have := List.all_eq_true.mp h _ hm
+  simp only [Bool.or_eq_true, List.contains_iff_mem] at this
+  rcases this with h1 | h1
+  · exact absurd h1 hk
+  · exact (C05_admissible_iff lit k bias).mp h1
+
+/-- The same fact in the words of the runtime `refcheck` command. -/
+theorem C05_table_refcheck (lit : List Char) (k : UnitKey) (bias : Int)
+    (hm : (lit, WordAction.unit k bias) ∈ allRows) (hk : lit ∉ deviating) :
+    checkName lit k bias = "OK" :=
+  (C05_refcheck_iff lit k bias).mpr ((C05_admissible_iff lit k bias).mpr (C05_table lit k bias hm hk))
+
+/-- Non-vacuity: `mile` is a literal of the table, not excluded, and its reference row
+has the single scale 1609.344 m. -/
+example : (['m', 'i', 'l', 'e'], WordAction.unit (.derived 3553165315) 0) ∈ allRows ∧
+    ['m', 'i', 'l', 'e'] ∉ deviating ∧
+    (findRow ['m', 'i', 'l', 'e']).map (·.scales) = some [1609344 / 1000] := by decide +kernel
+
+/-- **C05 (unit table, converse).** Every name of the reference table (and both
+offset scales) is a unit-name literal of the `Units` lexer, so the reference is not
+satisfied vacuously. -/
+theorem C05_table_complete :
+    (∀ r ∈ table, ∀ n ∈ r.names, ∃ k b, (n.toList, WordAction.unit k b) ∈ Generated.unitsOnly) ∧
+    (∀ r ∈ affineTable, ∀ n ∈ r.1, ∃ k b, (n.toList, WordAction.unit k b) ∈ Generated.unitsOnly) := by
+  have key : ∀ names : List String,
+      names.all (fun n => Generated.unitsOnly.any (fun row => row.1 == n.toList && match row.2 with
+        | .unit _ _ => true
+        | _ => false)) = true →
+      ∀ n ∈ names, ∃ k b, (n.toList, WordAction.unit k b) ∈ Generated.unitsOnly := by
+    intro names h n hn
+    have := List.all_eq_true.mp h _ hn
+    simp only [List.any_eq_true, Bool.and_eq_true, beq_iff_eq] at this
+    obtain ⟨⟨l, a⟩, hm, he, ha⟩ := this
+    simp only at he ha
+    subst he
+    cases a with
+    | unit k b => exact ⟨k, b, hm⟩
+    | pfx _ _ => simp at ha
+    | sep => simp at ha
+  constructor
+  · have h : (table.flatMap (·.names)).all (fun n => Generated.unitsOnly.any (fun row =>
+        row.1 == n.toList && match row.2 with
+        | .unit _ _ => true
+        | _ => false)) = true := by decide +kernel
+    intro r hr n hn
+    exact key _ h n (List.mem_flatMap.mpr ⟨r, hr, hn⟩)
+  · have h : (affineTable.flatMap (·.1)).all (fun n => Generated.unitsOnly.any (fun row =>
+        row.1 == n.toList && match row.2 with
+        | .unit _ _ => true
+        | _ => false)) = true := by decide +kernel
+    intro r hr n hn
+    exact key _ h n (List.mem_flatMap.mpr ⟨r, hr, hn⟩)
+
+/-! ### The known deviations, pinned
+
+Each of the four units recorded in `known_findings.jsonl` is pinned to its current
+value: a different wrong value, a repaired value, or a further deviating name breaks
+one of these proofs. -/
+
+/-- `name` is a unit-name literal, and every row for it in either lexer table maps it
+to a proportional unit of dimension `dims` whose scale, with the row's bias, is
+exactly `scale`. -/
+def pinnedAs (name : String) (dims : DimVec) (scale : Rat) : Bool :=
+  Generated.unitsOnly.any (fun r => r.1 == name.toList) &&
+  allRows.all fun r => r.1 != name.toList ||
+    match r.2 with
+    | .unit k b =>
+      (match scaleOf k with
+       | .linear f => Arith.zpow 10 b * f == scale
+       | .affine _ _ => false) && dimsOf k == dims
+    | _ => false
+
+/-- The admissible scales of the reference row for `name`. -/
+def refScales (name : String) : List Rat := ((findRow name.toList).map (·.scales)).getD []
+
+/-- `pint`, `pints`: half a US gallon (1.89 L), none of the three pints. -/
+theorem C05_pinned_pint :
+    pinnedAs "pint" dL3 (galUS / 2) = true ∧ pinnedAs "pints" dL3 (galUS / 2) = true ∧
+    galUS / 2 = 473176473 / 250000000000 ∧ galUS / 2 ∉ refScales "pint" ∧
+    refScales "pints" = refScales "pint" := by decide +kernel
+
+/-- `Da`, `dalton`, `daltons`: 1.660539066605 kg, the factor 10⁻²⁷ is missing. -/
+theorem C05_pinned_dalton :
+    pinnedAs "Da" dM (1660539066605 / 10 ^ 12) = true ∧
+    pinnedAs "dalton" dM (1660539066605 / 10 ^ 12) = true ∧
+    pinnedAs "daltons" dM (1660539066605 / 10 ^ 12) = true ∧
+    (1660539066605 / 10 ^ 12 : Rat) ∉ refScales "Da" ∧
+    refScales "dalton" = refScales "Da" ∧ refScales "daltons" = refScales "Da" := by decide +kernel
+
+/-- `ftm`, `fathom`, `fathoms`: a thousandth of a nautical mile (1.852 m), not 2 yd. -/
+theorem C05_pinned_fathom :
+    pinnedAs "ftm" dL (nmi / 1000) = true ∧ pinnedAs "fathom" dL (nmi / 1000) = true ∧
+    pinnedAs "fathoms" dL (nmi / 1000) = true ∧
+    nmi / 1000 ∉ refScales "ftm" ∧ refScales "ftm" = [2 * yd] ∧
+    refScales "fathom" = refScales "ftm" ∧ refScales "fathoms" = refScales "ftm" := by decide +kernel
+
+/-- `slug`, `slugs`: 14.59390294 kg, the exact `lb·g₀/ft` rounded at 10⁻⁸. -/
+theorem C05_pinned_slug :
+    pinnedAs "slug" dM (1459390294 / 10 ^ 8) = true ∧ pinnedAs "slugs" dM (1459390294 / 10 ^ 8) = true ∧
+    (1459390294 / 10 ^ 8 : Rat) ∉ refScales "slug" ∧ refScales "slug" = [lb * g0 / ft] ∧
+    refScales "slugs" = refScales "slug" := by decide +kernel
+
+/-- The exclusion list is exact: every excluded name is a literal and really deviates
+(so `C05_table` excludes nothing it could have covered). -/
+theorem C05_pinned_all_deviate :
+    (∀ lit ∈ deviating, ∃ k b, (lit, WordAction.unit k b) ∈ Generated.unitsOnly) ∧
+    (∀ lit k b, (lit, WordAction.unit k b) ∈ allRows → lit ∈ deviating → ¬ Admissible lit k b) := by
+  constructor
+  · have h : deviating.all (fun lit => Generated.unitsOnly.any (fun row => row.1 == lit && match row.2 with
+        | .unit _ _ => true
+        | _ => false)) = true := by decide +kernel
+    intro lit hl
+    have := List.all_eq_true.mp h _ hl
+    simp only [List.any_eq_true, Bool.and_eq_true, beq_iff_eq] at this
+    obtain ⟨⟨l, a⟩, hm, he, ha⟩ := this
+    simp only at he ha
+    subst he
+    cases a with
+    | unit k b => exact ⟨k, b, hm⟩
+    | pfx _ _ => simp at ha
+    | sep => simp at ha
+  · have h : allRows.all (fun r => match r.2 with
+        | .unit k b => !deviating.contains r.1 || !admissible r.1 k b
+        | _ => true) = true := by decide +kernel
+    intro lit k b hm hd hA
+    have := List.all_eq_true.mp h _ hm
+    simp only [Bool.or_eq_true, Bool.not_eq_true', List.contains_eq_mem, decide_eq_false_iff_not] at this
+    rcases this with h1 | h1
+    · exact h1 hd
+    · rw [(C05_admissible_iff lit k b).mpr hA] at h1; exact absurd h1 (by simp)
+
+
 end Anything.Props.C05
